@@ -25,7 +25,7 @@ TIERS = {"quick": {"runs": 1200, "time_budget": 100, "audit_every": 40},
 
 def generate(seed, tier):
     r = random.Random("%s/mode" % seed)
-    want = [n for n in ("tc", "tv", "tb", "kw", "ng", "n", "b") if r.random() < 0.5] + (["*_dyn"] if r.random() < 0.3 else [])
+    want = [n for n in ("tc", "tv", "tb", "kw", "ng", "n", "b") if r.random() < 0.5] + (["*_dyn"] if r.random() < 0.3 else []) + [n for n in ("tx", "txb") if r.random() < 0.3]
     mem = r.random() < 0.3
     empty_base = mem and r.random() < 0.5
     rec = _hist.generate_hist(
